@@ -74,4 +74,3 @@ func (w *World) constOf(v ssa.Value) (int64, bool) {
 	}
 	return 0, false
 }
-
